@@ -559,8 +559,44 @@ def _push(cap, g, e):
     return ([e] + g, None) if len(g) < cap else ([e] + g[:-1], g[-1] if g else None)
 
 
+def mon_c08_ctor(case):
+    """the quotas of every TwoQueueCache a constructor or builder call of the harness built (kind 8): the recent quota is
+    floor(size * recent ratio) and the ghost capacity floor(size * ghost ratio), in double precision"""
+    import math
+    for step, (op, out, cb, acct, snap) in enumerate(case["lines"], 1):
+        if not op or not out or out[0] != 0 or len(out) < 4:
+            continue
+        o = op
+        if o[0] == 141 and len(o) >= 3 and o[1] == 1:
+            names, setters = _BUILDERS[1]
+            f = dict(a=0, r1=_B025, r2=_B05)
+            rest = o[3:]
+            if o[2] != 0:
+                f["a"] = rest[0] if rest else 0
+                rest = rest[1:]
+            for i in range(0, len(rest) - 1, 2):
+                if rest[i] in setters:
+                    f[setters[rest[i]]] = rest[i + 1]
+            o = [140, 3, f["a"], f["r1"], f["r2"]]
+        if o[0] != 140 or len(o) < 3 or o[1] not in (3, 4, 9, 10, 11):
+            continue
+        c, a = o[1], o[2:]
+        size = a[0]
+        rr = a[1] if c in (3, 4, 10) else _B025
+        gr = a[2] if c in (3, 4) else (a[1] if c == 11 else _B05)
+        if size == 0 or not _ratio_ok(rr) or not _ratio_ok(gr):
+            continue
+        want = [size, math.floor(size * _f64(rr)), math.floor(size * _f64(gr))]
+        if out[1:4] != want:
+            return step, (f"TwoQueueCache built by {op[:8]}: (cap, recent quota, ghost capacity) = {out[1:4]}, the property requires "
+                          f"floor(size x ratio) = {want} (ratios {_f64(rr)!r}, {_f64(gr)!r})")
+    return None
+
+
 def mon_c08(case):
     """TwoQueueCache: the 2Q policy clause by clause on the real recent / frequent / ghost lists"""
+    if case["kind"] == 8:
+        return mon_c08_ctor(case)
     if case["kind"] != 2:
         return None
     size, rs, es = case["cfg"][:3]
@@ -1139,7 +1175,13 @@ def mon_c14(case):
         return None
     prev_lists = None
     for step, (op, out, cb, acct, snap) in enumerate(case["lines"], 1):
-        if not op or op[0] in (98, 99) or is_panic(out, snap):
+        if not op or op[0] in (98, 99):
+            continue
+        if is_panic(out, snap):
+            # no user code runs inside an iterator of these histories: a panic there is the iterator failing to
+            # yield what it must (or to stay exhausted)
+            if (kind == 0 and op[0] == 24) or (kind in (2, 3) and op[0] == 60):
+                return step, f"the iterator script {op[1:]} panicked inside the library: it neither yields the entries in order nor stays exhausted"
             continue
         p = parse_snap(kind, snap)
         if p is None:
